@@ -387,6 +387,9 @@ func (b *Biscuit) authorizerFor(root ed25519.PublicKey, opts ...AuthorizerOption
 			if privateKey == nil {
 				return nil, errors.New("biscuit: sealed token verification not implemented")
 			}
+			if len(privateKey) != ed25519.SeedSize {
+				return nil, ErrInvalidKeySize
+			}
 
 			publicKey := ed25519.NewKeyFromSeed(privateKey).Public()
 			if !bytes.Equal(currentKey, publicKey.(ed25519.PublicKey)) {
